@@ -142,6 +142,10 @@ func observe(c gx.Case, v gx.Variant, viol *[]hx.OracleViolation) fields {
 		checkHeld(after+" on "+c.G6+" "+tag, viol)
 	}
 	tick("building the graph")
+	// every slice a call returns is collected here; at the end of the variant the caller writes
+	// into all of them (and appends to them) and calls the functions again
+	var returned [][]int
+	var returnedBytes [][]byte
 	f := fields{n: g.N(), m: g.M(), ci: -2}
 
 	// cliques
@@ -215,6 +219,7 @@ func observe(c gx.Case, v gx.Variant, viol *[]hx.OracleViolation) fields {
 			fail("AllMaximalCliques", "clique number %d read %s when received and reads %v after the channel was closed (channel capacity %d)", i, raw[i], cl, cap(ch))
 		}
 	}
+	returned = append(returned, asSent...)
 	if len(asSent) > 0 {
 		first := asSent[0]
 		holdInts("AllMaximalCliques[0] of "+c.G6+" "+tag, first)
@@ -227,6 +232,7 @@ func observe(c gx.Case, v gx.Variant, viol *[]hx.OracleViolation) fields {
 	// chromatic number with witness
 	chi, col := graph.ChromaticNumber(g)
 	holdInts("ChromaticNumber colouring of "+c.G6+" "+tag, col)
+	returned = append(returned, col)
 	tick("ChromaticNumber")
 	f.chi = chi
 	f.ds = fmt.Sprintf("%d:%s", chi, showCol(col))
@@ -247,6 +253,7 @@ func observe(c gx.Case, v gx.Variant, viol *[]hx.OracleViolation) fields {
 	}
 	for k := 0; k <= n+1; k++ {
 		ok, kcol := graph.IsKColorable(g, k)
+		returned = append(returned, kcol)
 		if k == chi || k == n+1 {
 			holdInts(fmt.Sprintf("IsKColorable(%d) colouring of %s %s", k, c.G6, tag), kcol)
 		}
@@ -294,6 +301,7 @@ func observe(c gx.Case, v gx.Variant, viol *[]hx.OracleViolation) fields {
 		}
 		f.lg = sb.String()
 		ci, ce := graph.ChromaticIndex(g)
+		returnedBytes = append(returnedBytes, ce)
 		if ce != nil {
 			hold("ChromaticIndex edge array of "+c.G6+" "+tag, func() string { return fmtBytes(ce) })
 		}
@@ -353,6 +361,7 @@ func observe(c gx.Case, v gx.Variant, viol *[]hx.OracleViolation) fields {
 	if eg, ok := g.(graph.EditableGraph); ok && n <= maxNPoly {
 		poly := graph.ChromaticPolynomial(eg)
 		holdInts("ChromaticPolynomial coefficients of "+c.G6+" "+tag, poly)
+		returned = append(returned, poly)
 		tick("ChromaticPolynomial")
 		if len(poly) != n+1 {
 			fail("ChromaticPolynomial", "%d coefficients for n=%d", len(poly), n)
@@ -376,6 +385,7 @@ func observe(c gx.Case, v gx.Variant, viol *[]hx.OracleViolation) fields {
 	// degeneracy with certificate
 	d, order := graph.Degeneracy(g)
 	holdInts("Degeneracy order of "+c.G6+" "+tag, order)
+	returned = append(returned, order)
 	tick("Degeneracy")
 	f.dg = d
 	f.ord = gx.JoinInts(order, ".")
@@ -416,6 +426,7 @@ func observe(c gx.Case, v gx.Variant, viol *[]hx.OracleViolation) fields {
 				ord[i] = -1
 			}
 			holdInts("GreedyColor colouring of "+c.G6+" "+tag, gc)
+			returned = append(returned, gc)
 			tick("GreedyColor")
 			if len(gc) != n {
 				fail("GreedyColor", "colouring of length %d", len(gc))
@@ -486,8 +497,97 @@ func observe(c gx.Case, v gx.Variant, viol *[]hx.OracleViolation) fields {
 	if !graph.IsProperColouring(g, col) && isProper(h, col) {
 		fail("IsProperColouring", "rejects the proper colouring %v", col)
 	}
+	// the caller owns what was returned: write into every returned slice, append to it, and then
+	// call everything again on the same graph (a function that handed out memory it still uses,
+	// e.g. a cached table, now computes with the caller's scribbles)
+	scribble := func() {
+		for _, sl := range returned {
+			for i := range sl {
+				sl[i] = 7777 + i
+			}
+			if sl != nil {
+				_ = append(sl, 4242, 4243)
+			}
+		}
+		for _, sl := range returnedBytes {
+			for i := range sl {
+				sl[i] = 0xEE
+			}
+			if sl != nil {
+				_ = append(sl, 0xEF)
+			}
+		}
+		returned, returnedBytes = nil, nil
+		resnapHeld()
+	}
+	scribble()
+	if secondRound || n <= 2 {
+		if w2 := graph.CliqueNumber(g); w2 != f.w {
+			fail("CliqueNumber", "second call %d, first call %d", w2, f.w)
+		}
+		if a2 := graph.IndependenceNumber(g); a2 != f.a {
+			fail("IndependenceNumber", "second call %d, first call %d", a2, f.a)
+		}
+		ch2 := make(chan []int, 3)
+		go graph.AllMaximalCliques(g, ch2)
+		var mc2 [][]int
+		for cl := range ch2 {
+			returned = append(returned, cl)
+			mc2 = append(mc2, gx.MapBack(v.Perm, hx.SortedCopy(cl)))
+		}
+		gx.SortLists(mc2)
+		if got := fmt.Sprintf("%d:%s", len(mc2), gx.Lists(mc2)); got != f.mc {
+			fail("AllMaximalCliques", "second call reports %s, first call %s", got, f.mc)
+		}
+		c2, col2 := graph.ChromaticNumber(g)
+		returned = append(returned, col2)
+		if c2 != f.chi || !isProper(h, col2) {
+			fail("ChromaticNumber", "second call (after the caller wrote into the first result): %d %v, first call %d", c2, col2, f.chi)
+		}
+		if ok, kcol := graph.IsKColorable(g, f.chi); !ok || !isProper(h, kcol) {
+			fail("IsKColorable", "second round: k=%d answers %v %v", f.chi, ok, kcol)
+		} else {
+			returned = append(returned, kcol)
+		}
+		if ok, _ := graph.IsKColorable(g, f.chi-1); ok && f.chi >= 1 {
+			fail("IsKColorable", "second round: k=%d answers true, chi is %d", f.chi-1, f.chi)
+		}
+		if f.m <= maxEdgesChromaticIndex {
+			ci2, ce2 := graph.ChromaticIndex(g)
+			returnedBytes = append(returnedBytes, ce2)
+			cei := make([]int, len(ce2))
+			for i, b := range ce2 {
+				cei[i] = int(b)
+			}
+			if got := fmt.Sprintf("%d:%s", ci2, gx.JoinInts(cei, ".")); ce2 != nil && got != f.dci {
+				fail("ChromaticIndex", "second call %s, first call %s", got, f.dci)
+			}
+		}
+		if eg, ok := g.(graph.EditableGraph); ok && n <= maxNPoly && f.cp != "" {
+			poly2 := graph.ChromaticPolynomial(eg)
+			if got := gx.JoinInts(poly2, ","); got != f.cp {
+				fail("ChromaticPolynomial", "second call (after the caller wrote into the first result) %s, first call %s", got, f.cp)
+			}
+			returned = append(returned, poly2)
+		}
+		d2, order2 := graph.Degeneracy(g)
+		returned = append(returned, order2)
+		if d2 != f.dg || !isPerm(order2, n) {
+			fail("Degeneracy", "second call %d %v, first call %d", d2, order2, f.dg)
+		}
+		if _, gc2 := graph.GreedyColor(g, gx.Identity(n)); gx.JoinInts(gc2, ".") != gx.JoinInts(refGreedy(h, gx.Identity(n)), ".") {
+			fail("GreedyColor", "second round: colouring %v is not first-fit along 0..n-1", gc2)
+		} else {
+			returned = append(returned, gc2)
+		}
+		tick("second round")
+		scribble()
+	}
 	return f
 }
+
+// secondRound: observe calls every function a second time after scribbling over the results
+var secondRound bool
 
 func sameGraph(g graph.Graph, h *gx.G) bool {
 	for i := 0; i < h.N; i++ {
@@ -523,6 +623,7 @@ func exec(line string) hx.Result {
 		if !isPerm(v.Perm, c.Base.N) {
 			continue
 		}
+		secondRound = i <= 1
 		f := observe(c, v, &viol)
 		if i == 0 {
 			first = f
@@ -561,6 +662,9 @@ func exec(line string) hx.Result {
 	for _, t := range c.Toks {
 		if t.Kind == 'G' {
 			observeConstructed(c, t, &viol)
+		}
+		if t.Kind == 'Q' {
+			observeSequence(c, t, &viol)
 		}
 		if t.Kind == 'P' {
 			observePlanted(c, t, &viol)
